@@ -11,6 +11,11 @@ T_PATHS = 'bounded-exhaustive exploration of the row transition system (all row 
 T_HIST = 'explicit-state BFS over call histories on live objects with reflection snapshots'
 
 CHECKS = {
+    'C15': ("21 (thorough 110) documents - core-only (single notes without accidentals over 9 octaves, rests, grace notes, non-kern spines, split/join) and mixed (accidentals, chords) - x all 40 "
+            "intervals x 2 directions: the transposed export must have the same grid, every non-note cell, duration, signifier set and rest unchanged, each note's (letter, "
+            "alteration, octave) must be the pitchref transposition of the source note, the call may raise only when some exact result needs more than two accidentals, the source's "
+            "export must be unchanged and transposing back must restore it. Cells are labelled by class; failures in the three non-core classes named by the property are known findings.",
+            'Trusted: kv/pitchref.py (C09 arithmetic), kv/model.py row alignment.', 'exhaustive enumeration of the interval x direction grid on a document family against a reference model', 'DESIGN.md §3 C15'),
     'C18': ("9 non-kern headers (text, dynam, dyn, harm, mxhm, fing and three unknown ones) x a corpus of one token per grammar alternative, free text, malformed texts, look-alikes and ALL "
             "strings of length <=2 over a 49-character alphabet (thorough: + all length-3 strings over 25 characters; 2.6k / 18k cells per header): import never raises; whether a cell is "
             "shared structure is decided by an independent recogniser (regular expressions from the Humdrum syntax) - then category and export must be those of a **kern spine, otherwise "
